@@ -666,6 +666,7 @@ func AllCells() []Cell {
 	cs = append(cs, CellList()...)
 	cs = append(cs, fileCells()...)
 	cs = append(cs, MultiLineCells()...)
+	cs = append(cs, EscapeCells()...)
 	return cs
 }
 
